@@ -93,4 +93,8 @@ def _get_saved_where_filter(zdir: PathLike, query_name: str) -> Optional[str]:
         where_filter = where_filter.replace(
             f"{{{sub_query_name}}}", sub_where_filter
         )
+    # A saved filter with alternatives must stay one unit when it is spliced
+    # into the referencing query (e.g. 'f=b {s}' with s = '- | o').
+    if " | " in where_filter:
+        where_filter = f"({where_filter})"
     return where_filter
